@@ -9,6 +9,7 @@
 -/
 import Golib.Gen.C14
 import Golib.HLL.SrcBridge
+import Golib.HLL.SrcProg
 
 namespace C14Gen
 open HLL
@@ -143,5 +144,54 @@ theorem gen_offerHashed_meaning (ρ : Env) (p h : Nat) (h0 : ρ.args.getD 0 0 = 
     (hl : ρ.fldv "log2m" = p) (hc : ∀ x, ρ.fn1 "clz32" x = HLL.clz32 x) (hp1 : 1 ≤ p) (hp2 : p ≤ 32) :
     Gen.C14.offerIdx.eval ρ = idx p h ∧ Gen.C14.offerRank.eval ρ = rank p h := by
   rw [gen_offerHashed.2.1, gen_offerHashed.2.2.1]; exact offer_bridge ρ p h h0 hl hc hp1 hp2
+
+open HLL.Src in
+/-- index and rank of the transcribed `offerHashed`, for every precision 4..16 at once (no per-p
+    evaluation): the leading `p` bits, and the leading zeros of the remaining bits + 1 -/
+theorem gen_offerHashed_spec (ρ : Env) (p h : Nat) (h0 : ρ.args.getD 0 0 = h)
+    (hl : ρ.fldv "log2m" = p) (hc : ∀ x, ρ.fn1 "clz32" x = HLL.clz32 x) (h1 : 4 ≤ p) (h2 : p ≤ 16)
+    (hh : Hashed h) :
+    Gen.C14.offerIdx.eval ρ = h / 2 ^ (32 - p) ∧ Gen.C14.offerIdx.eval ρ < 2 ^ p ∧
+    Gen.C14.offerRank.eval ρ = (32 - p) - bitlen (h % 2 ^ (32 - p)) + 1 ∧
+    Gen.C14.offerRank.eval ρ < 32 := by
+  obtain ⟨e1, e2⟩ := gen_offerHashed_meaning ρ p h h0 hl hc (by omega) (by omega)
+  rw [e1, e2]
+  exact ⟨rfl, idx_lt p h (by omega) hh, rank_spec p h (by omega) (by omega),
+    rank_lt_32 p h (by omega) (by omega)⟩
+
+/-- the transcribed statement lists of `GetBytes` and `BuildHyperLogLog` -/
+theorem gen_byte_form_programs :
+    Gen.C14.getBytesProg = Src.getBytesProg ∧ Gen.C14.buildProg = Src.buildProg := by
+  refine ⟨by decide, by decide⟩
+
+open HLL.Src in
+/-- **interpreted**: running the transcribed `GetBytes` writes exactly the model's `getBytes` -/
+theorem gen_getBytes_meaning (ρ : Env) (colls : String → List Nat) (p : Nat) (ws : Array Nat)
+    (hl : ρ.fldv "log2m" = p) (hsz : ρ.fldv "registerSet.Size" = ws.size)
+    (hc : colls "registerSet.ReadOnlyBits" = ws.toList)
+    (hp : p < 4294967296) (hs : ws.size < 4294967296) (hw : ∀ w ∈ ws.toList, w < 4294967296) :
+    WStep.run ρ colls Gen.C14.getBytesProg [] = some (getBytes p ws) := by
+  rw [gen_byte_form_programs.1]; exact getBytes_bridge ρ colls p ws hl hsz hc hp hs hw
+
+open HLL.Src in
+/-- **interpreted**: the transcribed `BuildHyperLogLog` is the model's decoder `build`; with the
+    round trip, rebuilding what the transcribed `GetBytes` wrote restores the counter -/
+theorem gen_build_meaning (σ : Store) :
+    RStep.sem Gen.C14.buildProg σ = build := by
+  rw [gen_byte_form_programs.2]; exact build_bridge σ
+
+open HLL.Src in
+theorem gen_byte_form_roundtrip (ρ : Env) (colls : String → List Nat) (σ : Store) (p : Nat)
+    (ws : Array Nat) (bs rest : Bytes)
+    (hl : ρ.fldv "log2m" = p) (hsz : ρ.fldv "registerSet.Size" = ws.size)
+    (hc : colls "registerSet.ReadOnlyBits" = ws.toList) (hp : PrecOK p) (hw : WFState p ws)
+    (hrun : WStep.run ρ colls Gen.C14.getBytesProg [] = some bs) :
+    P.run (RStep.sem Gen.C14.buildProg σ) (bs ++ rest) = some ((p, ws), rest) := by
+  have hs : ws.size < 2147483648 := by rw [hw.size]; exact wordCount_lt p hp.hi
+  rw [gen_getBytes_meaning ρ colls p ws hl hsz hc (by have := hp.hi; omega) (by omega)
+    (wf_words_lt p ws hw)] at hrun
+  injection hrun with hrun
+  rw [← hrun, gen_build_meaning]
+  exact run_build_getBytes p ws rest hp.hi hs (wf_words_lt p ws hw)
 
 end C14Gen
